@@ -57,6 +57,12 @@ M = [
    (MIG, "\t\t\ts1, s2 := *current.Schemas[0], *desired.Schemas[0]\n\t\t\t// Avoid comparing schema names when scope is limited to one schema,\n\t\t\t// and the schema qualifier is controlled by the caller.\n\t\t\tif s1.Name != s2.Name {\n\t\t\t\ts1.Name = s2.Name\n\t\t\t}\n\t\t\tchanges, err = p.drv.SchemaDiff(&s1, &s2, p.diffOpts...)",
          "\t\t\ts1, s2 := current.Schemas[0], desired.Schemas[0]\n\t\t\t// Avoid comparing schema names when scope is limited to one schema,\n\t\t\t// and the schema qualifier is controlled by the caller. The replayed\n\t\t\t// schema is renamed itself: its tables and types point to it.\n\t\t\tif s1.Name != s2.Name {\n\t\t\t\ts1.Name = s2.Name\n\t\t\t}\n\t\t\tchanges, err = p.drv.SchemaDiff(s1, s2, p.diffOpts...)")]),
 ]
+# the mutants of the first rounds (notes/C16_mutants.py), re-run with tag prefix "M"
+if os.environ.get('WITH_OLD'):
+    src = open(os.path.join(VERIF, 'notes', 'C16_mutants.py')).read()
+    ns = {}
+    exec(src[src.index('M = ['):src.index('only = sys.argv')], ns)
+    M = [(n, [(f, o, w)]) for (n, f, o, w) in ns['M']] + M
 KNOWN = {'scope-accepts-cross-schema-enum', 'scope-accepts-cross-schema-other', 'scope-accepts-cross-schema-enum-and-other',
          'plan-accepts-cross-schema-enum', 'plan-accepts-cross-schema-other', 'ident-quote-unescaped', 'ident-goquote-escaped',
          'nextval-literal-unescaped', 'replay-plan-rejected-two-schemas', 'replay-history-unreadable-quote-char'}
